@@ -660,6 +660,10 @@ func (e *env) progText(p *program, tr *evmx.Tracer) (string, uint64) {
 				if hasVal {
 					xfer = 1
 					stip = 2300
+					if n.Kind == evmx.KCallCode {
+						xfer = 2 // EVM.CallCode: CanTransfer is consulted for the executing account, nothing moves (no journal entry)
+						e.cnt("value-callcode:" + n.Op)
+					}
 				}
 				// analytic cost of everything before gas is forwarded
 				an := uint64(0)
